@@ -37,7 +37,7 @@ Definition g_attribute (a : attribute) : bool := wf_identifier (attr_id a) && g_
 
 Definition g_plain_entry (e : entry) : bool :=
   match e with
-  | CommentEntry c | GroupComment c | ResourceComment c => simple_comment c
+  | CommentEntry c | GroupComment c | ResourceComment c => wide_comment c
   | Message id (Some p) attrs None => wf_identifier id && g_pattern p && forallb g_attribute attrs
   | Message id None attrs None =>
       wf_identifier id && negb (match attrs with [] => true | _ => false end) && forallb g_attribute attrs
@@ -45,7 +45,7 @@ Definition g_plain_entry (e : entry) : bool :=
   | _ => false
   end.
 Definition g_entry (e : entry) : bool :=
-  g_plain_entry (strip_comment e) && match entry_comment e with Some c => simple_comment c | None => true end.
+  g_plain_entry (strip_comment e) && match entry_comment e with Some c => wide_comment c | None => true end.
 Definition g_resource (t : resource) : bool := forallb g_entry t.
 
 (* ---- what the parser's tree has to do with the tree that was printed ---- *)
@@ -59,6 +59,15 @@ Definition rel_entry (e' e : entry) : Prop :=
   | Term id' p' a' c', Term id p a c => id' = id /\ rel_pattern p' p /\ Forall2 rel_attr a' a /\ c' = c
   | CommentEntry c', CommentEntry c | GroupComment c', GroupComment c | ResourceComment c', ResourceComment c => c' = c
   | _, _ => False
+  end.
+
+(* finding D7: the bare prefix of a stand-alone comment *)
+Definition d7_prefix (e : entry) (P : bytes) : Prop :=
+  match e with
+  | CommentEntry _ => P = [35%N]
+  | GroupComment _ => P = [35; 35]%N
+  | ResourceComment _ => P = [35; 35; 35]%N
+  | _ => False
   end.
 
 (* ---- layouts ---- *)
@@ -96,7 +105,10 @@ Inductive gentries_layout : list entry -> bytes -> Prop :=
 | gesl_nil : gentries_layout [] []
 | gesl_cons e r E T : gentry_layout e E -> gtail_layout e r T -> gentries_layout (e :: r) (E ++ T)
 with gtail_layout : entry -> list entry -> bytes -> Prop :=
-| gtl_eof e : gtail_layout e [] []
+| gtl_eof e : eof_ok e -> gtail_layout e [] []
+(* the text of finding D7, read as an (unusual) layout of the comment WITHOUT the empty last line: behind the
+   last entry, a stand-alone comment, a line end and the bare comment prefix at the end of the input *)
+| gtl_d7 e x P : d7_prefix e P -> is_eol_bytes x -> gtail_layout e [] (x ++ P)
 | gtl_more e r x c BL S :
     is_eol_bytes x -> blank_lines_of c BL -> gentries_layout r S ->
     match r with e2 :: _ => min_blank_between e e2 <= c | [] => True end ->
@@ -446,7 +458,12 @@ Proof.
 Qed.
 
 Lemma gtail_layout_line_end e r T : gtail_layout e r T -> line_end_or_eof T.
-Proof. intros [e' | e' r' x c BL S Hx HBL HS Hmin]; [left; reflexivity | right; exists x, (BL ++ S); auto]. Qed.
+Proof. intros [e' _ | e' x P _ Hx | e' r' x c BL S Hx HBL HS Hmin]; [left; reflexivity | right; exists x, P; auto | right; exists x, (BL ++ S); auto]. Qed.
+
+Lemma gtail_layout_eof e r T : gtail_layout e r T -> T = [] -> eof_ok e.
+Proof.
+  intros [e' Hok | e' x P _ Hx | e' r' x c BL S Hx HBL HS Hmin] E; [exact Hok | |]; destruct Hx as [-> | ->]; discriminate E.
+Qed.
 
 Lemma gentries_layout_after_comment lvl r S :
   g_resource r = true -> gentries_layout r S ->
@@ -467,11 +484,12 @@ Proof.
 Qed.
 
 Lemma gtail_layout_entry_tail e r T : g_resource r = true -> gtail_layout e r T ->
-  exists used c S, entry_tail T used c S /\ gentries_layout r S /\ length T = used + length S /\
-                   follows_ok e c S /\
-                   match r with e2 :: _ => min_blank_between e e2 <= c | [] => True end.
+  (exists used c S, entry_tail T used c S /\ gentries_layout r S /\ length T = used + length S /\
+                    follows_ok e c S /\
+                    match r with e2 :: _ => min_blank_between e e2 <= c | [] => True end) \/
+  (r = [] /\ exists x P, T = x ++ P /\ d7_prefix e P /\ is_eol_bytes x).
 Proof.
-  intros Hr HT. destruct HT as [e' | e' r' x c BL S Hx HBL HS Hmin].
+  intros Hr HT. destruct HT as [e' _ | e' x P HP Hx | e' r' x c BL S Hx HBL HS Hmin]; [left | right; split; [reflexivity | exists x, P; auto] | left].
   - exists 0, 0, []. split; [constructor | split; [constructor | split; [reflexivity|]]].
     split; [|exact Logic.I]. destruct e'; cbn [follows_ok]; try exact Logic.I; intros _; left; reflexivity.
   - exists (length x + length BL), c, S. split; [|split; [exact HS|split; [|split; [|exact Hmin]]]].
@@ -553,24 +571,24 @@ Qed.
 
 (* one entry of the fragment and the blank lines after it *)
 Lemma g_entry_step e E T used c S' p n :
-  g_plain_entry e = true -> gplain_layout e E -> entry_tail T used c S' -> follows_ok e c S' ->
+  g_plain_entry e = true -> gplain_layout e E -> entry_tail T used c S' -> follows_ok e c S' -> (T = [] -> eof_ok e) ->
   at_ bs p (E ++ T) -> 3 * length (E ++ T) + 2 * c + 14 <= n ->
   exists e' p1 cnt, get_entry bs n p p = Ok e' p1 /\ rel_entry e' e /\
                  skip_blank_block bs p1 = Ok cnt (used + (length E + p)) /\
                  (1 <= c -> is_comment_entry e = true -> cnt = S c) /\ cnt <= S c.
 Proof.
-  intros He HE HT Hf H Hn.
+  intros He HE HT Hf Heof H Hn.
   destruct (is_comment_entry e) eqn:Hce.
   - assert (Hgen : forall P lvl ls C (mk : comment -> entry),
                comment_layout P ls C -> prefix_level P lvl -> E = C ->
-               simple_comment (Comment ls) = true -> next_after_comment lvl c S' -> length ls + 1 <= n ->
+               wide_comment (Comment ls) = true -> (last ls [] = [] -> T <> []) -> next_after_comment lvl c S' -> length ls + 1 <= n ->
                (forall cm, match lvl with
                            | LRegular => @ret entry (CommentEntry cm) | LGroup => ret (GroupComment cm)
                            | LResource => ret (ResourceComment cm) | LNone => panic "unreachable" end = ret (mk cm)) ->
                exists p1 cnt, get_entry bs n p p = Ok (mk (Comment ls)) p1 /\
                               skip_blank_block bs p1 = Ok cnt (used + (length E + p)) /\ (1 <= c -> true = true -> cnt = S c) /\ cnt <= S c).
-    { intros P lvl ls C mk HC HP -> Hsc Hnx Hfuel Hmk.
-      destruct (simple_comment_spec ls Hsc) as [Hs Hlast].
+    { intros P lvl ls C mk HC HP -> Hsc Hlast Hnx Hfuel Hmk.
+      destruct (wide_comment_spec ls Hsc) as [_ Hs].
       destruct (comment_entry_step bs P lvl ls C T used c S' p n HC HP Hs Hlast HT Hnx H Hfuel) as (p1 & cnt & E1 & E2 & E3 & E4).
       exists p1, cnt. split; [|split; [exact E2 | split; [intros Hc _; apply E3, Hc | exact E4]]].
       unfold get_entry. rewrite bind_current_byte.
@@ -582,11 +600,11 @@ Proof.
     rewrite app_length in Hn.
     destruct HE as [ls C HC | ls C HC | ls C HC | | | ]; try discriminate Hce; cbn [g_plain_entry follows_ok nlines content] in *;
       pose proof (comment_layout_length _ ls C HC ltac:(discriminate)) as HlsC.
-    + destruct (Hgen [35%N] LRegular ls C CommentEntry HC) as (p1 & cnt & X1 & X2 & X3 & X4); auto; [left; auto | lia|].
+    + destruct (Hgen [35%N] LRegular ls C CommentEntry HC) as (p1 & cnt & X1 & X2 & X3 & X4); auto; [left; auto | intros E0 ET; apply (Heof ET E0) | lia|].
       exists (CommentEntry (Comment ls)), p1, cnt. repeat split; auto.
-    + destruct (Hgen [35; 35]%N LGroup ls C GroupComment HC) as (p1 & cnt & X1 & X2 & X3 & X4); auto; [right; left; auto | lia|].
+    + destruct (Hgen [35; 35]%N LGroup ls C GroupComment HC) as (p1 & cnt & X1 & X2 & X3 & X4); auto; [right; left; auto | intros E0 ET; apply (Heof ET E0) | lia|].
       exists (GroupComment (Comment ls)), p1, cnt. repeat split; auto.
-    + destruct (Hgen [35; 35; 35]%N LResource ls C ResourceComment HC) as (p1 & cnt & X1 & X2 & X3 & X4); auto; [right; right; auto | lia|].
+    + destruct (Hgen [35; 35; 35]%N LResource ls C ResourceComment HC) as (p1 & cnt & X1 & X2 & X3 & X4); auto; [right; right; auto | intros E0 ET; apply (Heof ET E0) | lia|].
       exists (ResourceComment (Comment ls)), p1, cnt. repeat split; auto.
   - destruct (g_get_entry e E T used c S' p n He Hce HE HT H Hn) as (e' & E1 & R1).
     exists e', (used + (length E + p)), 0. split; [exact E1 | split; [exact R1 | split; [|split; [discriminate | lia]]]].
@@ -596,14 +614,14 @@ Qed.
 
 (* one turn of the main loop on a printed entry without attached comment *)
 Lemma g_parse_loop_turn e E T used c S' p n body pending cnt :
-  g_plain_entry e = true -> gplain_layout e E -> entry_tail T used c S' -> follows_ok e c S' ->
+  g_plain_entry e = true -> gplain_layout e E -> entry_tail T used c S' -> follows_ok e c S' -> (T = [] -> eof_ok e) ->
   at_ bs p (E ++ T) -> 3 * length (E ++ T) + 2 * c + 14 <= n ->
   exists e' cnt', rel_entry e' e /\
     parse_loop bs (S n) body [] pending cnt p =
     parse_loop bs n (fst (turn pending cnt e' body)) [] (snd (turn pending cnt e' body)) cnt' (used + (length E + p)) /\
     (1 <= c -> is_comment_entry e = true -> cnt' = S c) /\ cnt' <= S c.
 Proof.
-  intros He HE HET Hfol H Hc.
+  intros He HE HET Hfol Heof H Hc.
   cbn [parse_loop]. rewrite bind_get_ptr.
   destruct (gentry_layout_length e E HE) as [HE1 HE2].
   assert (Hlt : Nat.ltb p (length_ bs) = true).
@@ -611,7 +629,7 @@ Proof.
     - exfalso. apply (f_equal (@length N)) in E0. rewrite app_length in E0. cbn [length] in E0. lia.
     - rewrite E0 in H. apply (at_ltb _ _ _ _ H). }
   rewrite Hlt. cbn [negb].
-  destruct (g_entry_step e E T used c S' p n He HE HET Hfol H Hc) as (e' & p1 & cnt' & Hge & Hrel & Hsb & Hcnt & Hle).
+  destruct (g_entry_step e E T used c S' p n He HE HET Hfol Heof H Hc) as (e' & p1 & cnt' & Hge & Hrel & Hsb & Hcnt & Hle).
   rewrite (bind_ok _ _ _ _ _ (try_ok _ _ _ _ Hge)).
   exists e', cnt'. split; [exact Hrel|]. split; [|split; assumption].
   unfold turn. destruct pending as [c0|].
@@ -640,6 +658,58 @@ Proof.
     cbn [snd]; try reflexivity; subst; reflexivity.
 Qed.
 
+(* finding D7: the last entry is a stand-alone comment, followed by a line end and its bare prefix at the end
+   of the input: the parser returns the comment, without an additional empty line *)
+Lemma g_parse_loop_turn_d7 e E x P p n body pending cnt :
+  g_plain_entry e = true -> gplain_layout e E -> d7_prefix e P -> is_eol_bytes x ->
+  at_ bs p (E ++ x ++ P) -> nlines e + 3 <= n ->
+  parse_loop bs (S n) body [] pending cnt p =
+  parse_loop bs n (fst (turn pending cnt e body)) [] (snd (turn pending cnt e body)) 0 (length (E ++ x ++ P) + p).
+Proof.
+  intros He HE HP Hx H Hn.
+  assert (Hgen : forall P0 lvl ls C (mk : comment -> entry),
+             comment_layout P0 ls C -> prefix_level P0 lvl -> E = C -> P = P0 -> e = mk (Comment ls) ->
+             wide_comment (Comment ls) = true -> length ls + 1 <= n ->
+             (forall cm, match lvl with
+                         | LRegular => @ret entry (CommentEntry cm) | LGroup => ret (GroupComment cm)
+                         | LResource => ret (ResourceComment cm) | LNone => panic "unreachable" end = ret (mk cm)) ->
+             get_entry bs n p p = Ok e (length (E ++ x ++ P) + p)).
+  { intros P0 lvl ls C mk HC HP0 -> -> -> Hsc Hfuel Hmk.
+    destruct (wide_comment_spec ls Hsc) as [_ Hs].
+    unfold get_entry. rewrite bind_current_byte.
+    assert (Hb : byte_at bs p = Some 35%N).
+    { destruct (comment_layout_head P0 ls C HC) as [t [-> _]].
+      destruct HP0 as [[-> _] | [[-> _] | [-> _]]]; cbn [app] in H; apply (at_byte _ _ _ _ H). }
+    rewrite Hb. change (N.eqb 35 35) with true. cbv iota. unfold get_comment.
+    step (comment_entry_step_d7 bs P0 lvl ls C x p n HC HP0 Hs Hx H Hfuel).
+    cbv beta iota. rewrite Hmk. reflexivity. }
+  assert (Hge : get_entry bs n p p = Ok e (length (E ++ x ++ P) + p)).
+  { destruct HE as [ls C HC | ls C HC | ls C HC | | | ]; cbn [d7_prefix] in HP; try contradiction; cbn [g_plain_entry] in He.
+    - apply (Hgen [35%N] LRegular ls C CommentEntry HC); auto; [left; auto | cbn [nlines content] in Hn; lia].
+    - apply (Hgen [35; 35]%N LGroup ls C GroupComment HC); auto; [right; left; auto | cbn [nlines content] in Hn; lia].
+    - apply (Hgen [35; 35; 35]%N LResource ls C ResourceComment HC); auto; [right; right; auto | cbn [nlines content] in Hn; lia]. }
+  cbn [parse_loop]. rewrite bind_get_ptr.
+  destruct (gentry_layout_length e E HE) as [HE1 HE2].
+  assert (Hlt : Nat.ltb p (length_ bs) = true).
+  { destruct (gentry_layout_start e E He HE (x ++ P)) as [E0 | (b & t & E0 & _)].
+    - exfalso. apply (f_equal (@length N)) in E0. rewrite app_length in E0. cbn [length] in E0. lia.
+    - rewrite E0 in H. apply (at_ltb _ _ _ _ H). }
+  rewrite Hlt. cbn [negb].
+  rewrite (bind_ok _ _ _ _ _ (try_ok _ _ _ _ Hge)).
+  assert (Hend : at_ bs (length (E ++ x ++ P) + p) []).
+  { replace (E ++ x ++ P) with ((E ++ x ++ P) ++ []) in H by apply app_nil_r. apply (at_app _ _ _ _ H). }
+  pose proof (skip_blank_block_none bs _ [] Hend no_blank_line_head_nil) as Hsb.
+  unfold turn. destruct pending as [c0|].
+  - destruct (Nat.ltb cnt 2) eqn:Elt;
+      destruct e as [? ? ? ?|? ? ? ?| | | |]; cbn [d7_prefix] in HP; try contradiction;
+      cbn [is_message_or_term andb attach fst snd]; cbv beta iota; rewrite bind_ret; step Hsb; reflexivity.
+  - destruct e as [? ? ? ?|? ? ? ?| | | |]; cbn [d7_prefix] in HP; try contradiction;
+      cbn [fst snd]; cbv beta iota; rewrite bind_ret; step Hsb; reflexivity.
+Qed.
+
+Lemma rel_entry_comment_refl e P : d7_prefix e P -> rel_entry e e.
+Proof. destruct e; cbn [d7_prefix rel_entry]; intros H; try contradiction; reflexivity. Qed.
+
 (* the main loop over the printed entries *)
 Lemma g_parse_loop_entries t : forall S, gentries_layout t S -> g_resource t = true ->
   forall p body pending cnt n, at_ bs p S -> pending_ok pending cnt t -> 8 * length S + 16 <= n ->
@@ -653,7 +723,24 @@ Proof.
     destruct pending; cbn [pending_list rev app]; rewrite ?app_nil_r; reflexivity.
   - inversion HS as [|e' r' E T HE HT]; subst. clear HS.
     cbn [g_resource forallb] in Ht. apply andb_prop in Ht as [He Hr].
-    destruct (gtail_layout_entry_tail e r T Hr HT) as (used & c & S' & HET & HS' & HlenT & Hfol & Hmin).
+    destruct (gtail_layout_entry_tail e r T Hr HT) as [(used & c & S' & HET & HS' & HlenT & Hfol & Hmin) | (-> & x & P & -> & HP & Hx)].
+    2:{ (* finding D7 *)
+      destruct HE as [e E Hcm HE | e0 ls C x0 E0 Hmt Hcm HC Hx0 HE0];
+        [|destruct e0; try discriminate Hmt; cbn [attach d7_prefix] in HP; contradiction].
+      assert (Hp : g_plain_entry e = true).
+      { unfold g_entry in He. rewrite (strip_comment_none e Hcm) in He. apply andb_prop in He as [He _]. exact He. }
+      destruct (gentry_layout_length e E HE) as [HE1 HE2].
+      destruct n as [|n]; [lia|]. rewrite app_length in Hn.
+      rewrite (g_parse_loop_turn_d7 e E x P p n body pending cnt Hp HE HP Hx H ltac:(lia)).
+      assert (Hend : at_ bs (length (E ++ x ++ P) + p) []).
+      { replace (E ++ x ++ P) with ((E ++ x ++ P) ++ []) in H by apply app_nil_r. apply (at_app _ _ _ _ H). }
+      assert (Hpo : pending_ok (snd (turn pending cnt e body)) 0 []) by (destruct (snd (turn pending cnt e body)); exact Logic.I).
+      destruct (IH [] (gesl_nil) eq_refl _ (fst (turn pending cnt e body)) (snd (turn pending cnt e body)) 0 n Hend Hpo
+                  ltac:(cbn [length]; lia)) as (t' & Eloop & Hrels).
+      inversion Hrels; subst. exists [e]. split; [|constructor; [apply (rel_entry_comment_refl e P HP) | constructor]].
+      rewrite Eloop. cbn [length Nat.add]. rewrite app_nil_r. f_equal. f_equal.
+      rewrite <- (app_nil_r (pending_list (snd (turn pending cnt e body)))).
+      apply turn_noattach. intros c0 _. destruct e; cbn [d7_prefix] in HP; try contradiction; reflexivity. }
     destruct (entry_tail_blank_bound T used c S' HET) as [HcT _].
     destruct (entry_tail_next bs T used c S' HET) as [Hnext Hat].
     pose proof (gany_layout_length e E HE) as HE1.
@@ -663,7 +750,7 @@ Proof.
     + (* an entry without attached comment: one turn *)
       assert (Hp : g_plain_entry e = true).
       { unfold g_entry in He. rewrite (strip_comment_none e Hcm) in He. apply andb_prop in He as [He _]. exact He. }
-      destruct (g_parse_loop_turn e E T used c S' p n body pending cnt Hp HE HET Hfol H
+      destruct (g_parse_loop_turn e E T used c S' p n body pending cnt Hp HE HET Hfol (gtail_layout_eof e r T HT) H
                   ltac:(rewrite app_length; nlia)) as (e' & cnt' & Hrel & Eturn & Hcnt & Hle).
       rewrite Eturn.
       pose proof (Hat _ (at_app _ _ _ _ H)) as H1.
@@ -684,7 +771,7 @@ Proof.
         destruct (is_message_or_term e) eqn:Emt; [|reflexivity].
         cbn [andb]. apply Nat.ltb_ge. apply (Hpend Emt Hcm).
     + (* a message or term with its comment: the comment's turn, then the entry's turn attaches it *)
-      assert (He0 : g_plain_entry e0 = true /\ simple_comment (Comment ls) = true).
+      assert (He0 : g_plain_entry e0 = true /\ wide_comment (Comment ls) = true).
       { destruct e0 as [id v a cm|id v a cm| | | |]; try discriminate Hmt; cbn [entry_comment] in Hcm; subst cm;
           unfold g_entry in He; cbn [attach strip_comment entry_comment] in He; apply andb_prop in He; exact He. }
       destruct He0 as [Hp0 Hsc].
@@ -702,7 +789,8 @@ Proof.
       assert (H' : at_ bs p (C ++ x ++ [] ++ E0 ++ T)) by (rewrite <- !app_assoc in H; exact H).
       assert (Hpc : g_plain_entry (CommentEntry (Comment ls)) = true) by exact Hsc.
       destruct (g_parse_loop_turn (CommentEntry (Comment ls)) C (x ++ [] ++ (E0 ++ T)) _ 0 (E0 ++ T) p n body pending cnt
-                  Hpc (gel_comment ls C HC) HET1 Hfol1 H' ltac:(rewrite !app_length; cbn [length]; nlia))
+                  Hpc (gel_comment ls C HC) HET1 Hfol1 ltac:(intros Enil; destruct Hx as [-> | ->]; discriminate Enil) H'
+                  ltac:(rewrite !app_length; cbn [length]; nlia))
         as (ec & cnt1 & Hrelc & Eturn1 & _ & Hle1).
       rewrite (rel_entry_is_comment _ _ Hrelc eq_refl) in Eturn1. clear ec Hrelc.
       rewrite Eturn1.
@@ -716,7 +804,8 @@ Proof.
         replace (length x + 0 + (length C + p)) with (length x + (length C + p)) by lia. exact H'. }
       assert (Hfol0 : follows_ok e0 c S') by (destruct e0; try discriminate Hmt; exact Logic.I).
       destruct (g_parse_loop_turn e0 E0 T used c S' _ n (pending_list pending ++ body) (Some (Comment ls)) cnt1
-                  Hp0 HE0 HET Hfol0 H2 ltac:(rewrite app_length; nlia)) as (e0' & cnt2 & Hrel0 & Eturn2 & _ & _).
+                  Hp0 HE0 HET Hfol0 ltac:(intros _; destruct e0; try discriminate Hmt; exact Logic.I) H2
+                  ltac:(rewrite app_length; nlia)) as (e0' & cnt2 & Hrel0 & Eturn2 & _ & _).
       rewrite Eturn2.
       assert (Et2 : turn (Some (Comment ls)) cnt1 e0' (pending_list pending ++ body) =
                     (attach e0' (Comment ls) :: pending_list pending ++ body, None)).
@@ -822,13 +911,13 @@ Proof.
     destruct (g_render_attributes_layout attrs cs2 Hattrs) as [A [cs3 [E3 HA]]]. rewrite (rbind_eq _ _ _ _ _ E3).
     eexists. exists cs3. split; [reflexivity|].
     unfold cat. cbn [concat app]. rewrite !app_nil_r. apply gel_term; assumption.
-  - cbn [g_plain_entry] in He. apply simple_comment_ne in He. cbn [content] in He. cbn [render_entry content].
+  - cbn [g_plain_entry] in He. apply wide_comment_ne in He. cbn [content] in He. cbn [render_entry content].
     destruct (render_comment_lines_layout [35%N] ls He cs) as [C [cs' [E HC]]].
     exists C, cs'. split; [exact E | constructor; exact HC].
-  - cbn [g_plain_entry] in He. apply simple_comment_ne in He. cbn [content] in He. cbn [render_entry content].
+  - cbn [g_plain_entry] in He. apply wide_comment_ne in He. cbn [content] in He. cbn [render_entry content].
     destruct (render_comment_lines_layout [35; 35]%N ls He cs) as [C [cs' [E HC]]].
     exists C, cs'. split; [exact E | constructor; exact HC].
-  - cbn [g_plain_entry] in He. apply simple_comment_ne in He. cbn [content] in He. cbn [render_entry content].
+  - cbn [g_plain_entry] in He. apply wide_comment_ne in He. cbn [content] in He. cbn [render_entry content].
     destruct (render_comment_lines_layout [35; 35; 35]%N ls He cs) as [C [cs' [E HC]]].
     exists C, cs'. split; [exact E | constructor; exact HC].
 Qed.
@@ -836,7 +925,7 @@ Qed.
 Lemma g_entry_cases e : g_entry e = true ->
   (entry_comment e = None /\ g_plain_entry e = true) \/
   (exists e0 ls, e = attach e0 (Comment ls) /\ is_message_or_term e0 = true /\ entry_comment e0 = None /\
-                 g_plain_entry e0 = true /\ simple_comment (Comment ls) = true).
+                 g_plain_entry e0 = true /\ wide_comment (Comment ls) = true).
 Proof.
   unfold g_entry. intros H. apply andb_prop in H as [Hp Hc].
   destruct e as [id v attrs [[ls]|]|id v attrs [[ls]|]|c|c|c|j]; cbn [entry_comment strip_comment] in *;
@@ -852,17 +941,17 @@ Proof.
   intros He. destruct (g_entry_cases e He) as [[Hc Hp] | (e0 & ls & -> & Hmt & Hc & Hp & Hcm)].
   - destruct (g_render_plain_layout e cs Hp) as [E [cs' [E1 HE]]]. exists E, cs'. split; [exact E1 | apply gel_plain; assumption].
   - rewrite (render_entry_attached e0 ls cs Hmt Hc).
-    pose proof (simple_comment_ne _ Hcm) as Hne. cbn [content] in Hne.
+    pose proof (wide_comment_ne _ Hcm) as Hne. cbn [content] in Hne.
     destruct (render_comment_lines_layout [35%N] ls Hne cs) as [C [cs1 [E1 HC]]]. rewrite E1.
     destruct (eol_spec' cs1) as [x [cs2 [E2 Hx]]]. rewrite E2.
     destruct (g_render_plain_layout e0 cs2 Hp) as [E [cs3 [E3 HE]]]. rewrite E3.
     exists ((C ++ x) ++ E), cs3. split; [reflexivity|]. rewrite <- app_assoc. apply gel_attached; assumption.
 Qed.
 
-Lemma g_render_entries_layout t : forall cs, g_resource t = true ->
+Lemma g_render_entries_layout t : forall cs, g_resource t = true -> last_comment_ok t = true ->
   exists S cs', render_entries t cs = (S, cs') /\ gentries_layout t S.
 Proof.
-  induction t as [|e r IH]; intros cs Ht.
+  induction t as [|e r IH]; intros cs Ht Hlast.
   - exists [], cs. split; [reflexivity | constructor].
   - cbn [g_resource forallb] in Ht. apply andb_prop in Ht as [He Hr].
     destruct (g_render_entry_layout e cs He) as [E [cs1 [E1 HE]]].
@@ -872,6 +961,7 @@ Proof.
       destruct fin as [|[|fin]].
       * exists E, cs2. split; [reflexivity|].
         replace E with (E ++ []) by apply app_nil_r. constructor; [exact HE | constructor].
+        apply eof_okb_spec. exact Hlast.
       * destruct (eol_spec' cs2) as [x [cs3 [E3 Hx]]]. rewrite (rbind_eq _ _ _ _ _ E3).
         exists (E ++ x), cs3. split; [reflexivity|]. constructor; [exact HE|].
         replace x with (x ++ [] ++ []) by (rewrite !app_nil_r; reflexivity).
@@ -890,17 +980,17 @@ Proof.
       unfold rbind at 1. destruct (choose 3 cs2) as [extra cs3].
       destruct (blank_lines_spec (min_blank_between e e2 + extra) cs3) as [BL [cs4 [E4 HBL]]].
       rewrite (rbind_eq _ _ _ _ _ E4).
-      destruct (IH cs4 Hr) as [S [cs5 [E5 HS]]]. rewrite (rbind_eq _ _ _ _ _ E5).
+      destruct (IH cs4 Hr Hlast) as [S [cs5 [E5 HS]]]. rewrite (rbind_eq _ _ _ _ _ E5).
       eexists. exists cs5. split; [reflexivity|].
       unfold cat. cbn [concat]. rewrite app_nil_r. constructor; [exact HE|].
       apply (gtl_more e (e2 :: r') x (min_blank_between e e2 + extra) BL S); [exact Hx | exact HBL | exact HS | lia].
 Qed.
 
-Lemma g_render_layout t cs : g_resource t = true -> gresource_layout t (render cs t).
+Lemma g_render_layout t cs : g_resource t = true -> last_comment_ok t = true -> gresource_layout t (render cs t).
 Proof.
-  intros Ht. unfold render. unfold rbind at 1. destruct (choose 3 cs) as [n cs1].
+  intros Ht Hlast. unfold render. unfold rbind at 1. destruct (choose 3 cs) as [n cs1].
   destruct (blank_lines_spec n cs1) as [BL [cs2 [E2 HBL]]]. rewrite (rbind_eq _ _ _ _ _ E2).
-  destruct (g_render_entries_layout t cs2 Ht) as [S [cs3 [E3 HS]]]. rewrite (rbind_eq _ _ _ _ _ E3).
+  destruct (g_render_entries_layout t cs2 Ht Hlast) as [S [cs3 [E3 HS]]]. rewrite (rbind_eq _ _ _ _ _ E3).
   cbn [fst rret]. unfold rret. cbn [fst]. econstructor; eassumption.
 Qed.
 
@@ -925,7 +1015,7 @@ Qed.
 Lemma g_plain_entry_wf e : g_plain_entry e = true -> wf_entry e = true.
 Proof.
   destruct e as [id [p|] attrs [|]|id p attrs [|]|c|c|c|]; try discriminate; cbn [g_plain_entry wf_entry]; intros H.
-  4-6: apply simple_comment_wf, H.
+  4-6: apply wide_comment_wf, H.
   all: apply andb_prop in H as [H Hattrs]; apply andb_prop in H as [Hid Hp];
     rewrite Hid, (g_attributes_wf attrs Hattrs), ?(g_pattern_wf _ Hp), ?Hp; reflexivity.
 Qed.
@@ -934,7 +1024,7 @@ Lemma g_entry_wf e : g_entry e = true -> wf_entry e = true.
 Proof.
   intros He. destruct (g_entry_cases e He) as [[Hc Hp] | (e0 & ls & -> & Hmt & Hc & Hp & Hcm)];
     [apply g_plain_entry_wf, Hp|].
-  pose proof (g_plain_entry_wf e0 Hp) as Hw. apply simple_comment_wf in Hcm.
+  pose proof (g_plain_entry_wf e0 Hp) as Hw. apply wide_comment_wf in Hcm.
   destruct e0 as [id v a cm|id v a cm| | | |]; try discriminate Hmt; cbn [entry_comment] in Hc; subst cm;
     cbn [attach wf_entry] in *; rewrite andb_true_r in Hw; rewrite Hw, Hcm; reflexivity.
 Qed.
@@ -1003,12 +1093,12 @@ Theorem g_parse_render_rel pok vlay rel cs t :
       exists els', get_pattern bs n p = Ok (Some (Pattern els')) (used + (length V + p)) /\ rel els' els) ->
   (forall els V, pok els = true -> vlay els V ->
       exists k V0, V = sp k ++ V0 /\ vlay els (sp 0 ++ V0) /\ forall T, head_not is_space (V0 ++ T)) ->
-  g_resource pok t = true ->
+  g_resource pok t = true -> last_comment_ok t = true ->
   exists t', parse (render cs t) = Done (t', []) /\ Forall2 (rel_entry rel) t' t.
 Proof.
-  intros Hrender Hpat Hstrip Ht.
+  intros Hrender Hpat Hstrip Ht Hlast.
   apply (g_parse_layout pok vlay rel t (render cs t) (Hpat (render cs t)) Hstrip Ht
-           (g_render_layout pok vlay rel Hrender t cs Ht)).
+           (g_render_layout pok vlay rel Hrender t cs Ht Hlast)).
 Qed.
 
 Theorem g_parse_render pok vlay cs t :
@@ -1020,11 +1110,11 @@ Theorem g_parse_render pok vlay cs t :
       exists els', get_pattern bs n p = Ok (Some (Pattern els')) (used + (length V + p)) /\ jrel els' els) ->
   (forall els V, pok els = true -> vlay els V ->
       exists k V0, V = sp k ++ V0 /\ vlay els (sp 0 ++ V0) /\ forall T, head_not is_space (V0 ++ T)) ->
-  g_resource pok t = true ->
+  g_resource pok t = true -> last_comment_ok t = true ->
   exists t', parse (render cs t) = Done (t', []) /\ map join_entry t' = t.
 Proof.
-  intros Hrender Hpat Hstrip Ht.
-  destruct (g_parse_render_rel pok vlay jrel cs t Hrender Hpat Hstrip Ht) as (t' & E & Hrel).
+  intros Hrender Hpat Hstrip Ht Hlast.
+  destruct (g_parse_render_rel pok vlay jrel cs t Hrender Hpat Hstrip Ht Hlast) as (t' & E & Hrel).
   exists t'. split; [exact E | apply jrel_entries, Hrel].
 Qed.
 
@@ -1054,13 +1144,15 @@ Proof.
     rewrite (IH Hr); reflexivity.
 Qed.
 
-Lemma simple_resource_g t : g_resource (fun els => simple_pattern (Pattern els)) t = simple_resource t.
+Lemma simple_resource_g t : simple_resource t = true -> g_resource (fun els => simple_pattern (Pattern els)) t = true.
 Proof.
   assert (Hp : forall p, g_pattern (fun els => simple_pattern (Pattern els)) p = simple_pattern p) by (intros [els]; reflexivity).
   assert (Ha : forall attrs, forallb (g_attribute (fun els => simple_pattern (Pattern els))) attrs = forallb simple_attribute attrs).
   { induction attrs as [|a r IH]; [reflexivity|]. cbn [forallb]. rewrite IH. unfold g_attribute, simple_attribute. rewrite Hp. reflexivity. }
-  assert (Hpe : forall e, g_plain_entry (fun els => simple_pattern (Pattern els)) e = plain_entry e).
-  { intros e. destruct e as [id [p|] attrs [c|]|id p attrs [c|]| | | |]; cbn [g_plain_entry plain_entry]; rewrite ?Hp, ?Ha; reflexivity. }
-  induction t as [|e r IH]; [reflexivity|]. unfold g_resource, simple_resource in *. cbn [forallb]. rewrite IH.
-  unfold g_entry, simple_entry. rewrite Hpe. reflexivity.
+  assert (Hpe : forall e, plain_entry e = true -> g_plain_entry (fun els => simple_pattern (Pattern els)) e = true).
+  { intros e. destruct e as [id [p|] attrs [c|]|id p attrs [c|]|c|c|c|]; cbn [g_plain_entry plain_entry]; rewrite ?Hp, ?Ha;
+      try exact (fun H => H); apply simple_wide_comment. }
+  unfold g_resource, simple_resource. rewrite !forallb_forall. intros H e He. specialize (H e He).
+  unfold g_entry, simple_entry in *. apply andb_prop in H as [H1 H2]. rewrite (Hpe _ H1). cbn [andb].
+  destruct (entry_comment e); [apply simple_wide_comment, H2 | reflexivity].
 Qed.
